@@ -327,12 +327,13 @@ const (
 )
 
 // judge checks the black-box part of the statement for one call and says what the call was.
-//   rejected => request not run, fallback (if any) run exactly once (with the breaker's
-//               ErrServiceUnavailable), its result returned; without fallback the error is
-//               ErrServiceUnavailable;
-//   admitted => request run exactly once, fallback not run, error returned unchanged, panic
-//               re-raised with the same value;
-//   done ctx => (interface doc of the Ctx forms) request not run, ctx.Err() returned.
+//
+//	rejected => request not run, fallback (if any) run exactly once (with the breaker's
+//	            ErrServiceUnavailable), its result returned; without fallback the error is
+//	            ErrServiceUnavailable;
+//	admitted => request run exactly once, fallback not run, error returned unchanged, panic
+//	            re-raised with the same value;
+//	done ctx => (interface doc of the Ctx forms) request not run, ctx.Err() returned.
 func judge(e Entry, out int, o obs) (verdict, class, msg string) {
 	if e.done() {
 		verdict = vDone
